@@ -262,8 +262,24 @@ def case_kernel_grad(**p):
       extra.append(sym.NE(tot, 1))
     case.solve('kernel-gradient-is-interpolation-weights[input=%d]' % xi, core.any_of(bad + extra), assumptions=interior,
                witness=dict(x=x, k=K) if kind != 'categorical' else dict(k=K), timeout=p.get('timeout', 120),
-               sig=dict(query='kernel-grad', layer=kind), replay=None)
+               sig=dict(query='kernel-grad', layer=kind),
+               inline_replay=lambda m, x=x, K=K: _kgrad_replay(m, tr, x, K, layer, kind, u0, kshape, p))
   return case
+
+
+def _kgrad_replay(m, tr, x, K, layer, kind, u0, kshape, p):
+  xn = core.model_np(m, x) if kind != 'categorical' else np.asarray(x, dtype=object).astype(np.int64)
+  grads, W = tr.tf_run(xn, var_values={layer.kernel.ref(): core.model_np(m, K)})
+  grads = np.asarray(grads, dtype=np.float64)
+  W2 = np.asarray(W, dtype=np.float64).reshape(-1, kshape[0])
+  row = u0 if (kind == 'lattice' and p['units'] > 1) else 0
+  ref = np.zeros(kshape)
+  ref[:, u0] = W2[row]
+  d = float(np.max(np.abs(grads - ref)))
+  bad = d > 1e-5
+  if kind == 'lattice':
+    bad = bad or bool(np.any(grads[:, u0] < -1e-6) or abs(float(np.sum(grads[:, u0])) - 1) > 1e-5)
+  return dict(reproduced=bool(bad), detail=dict(max_abs_diff_to_interpolation_weights=d, grad=grads.tolist()))
 
 
 def replay(r):
